@@ -41,3 +41,28 @@ Theorem handler_runs_on_entry_stack st extra base xv :
   stack (push_frame (unwind st (length base)) 3 (Some xv)) =
     {| f_kind := 3; f_this := Some xv; f_ret := None; f_line := 0 |} :: base.
 Proof. intros H. cbn [stack push_frame set_stack]. rewrite (unwind_exact st extra base H). reflexivity. Qed.
+
+(* 每当: on every pass — the first and every later one, after the statements of the body have moved the frame's
+   line — the condition is evaluated with the frame at the line of the loop statement, so a fault in it is
+   reported there (the pinned code evaluated it at the line of the last executed body statement) *)
+Theorem while_condition_line ev body c l j st :
+  stack st <> [] ->
+  top_line (set_line st l) = l /\
+  while_loop ev body c l (S j) st =
+    (let! (cv, s1) := ev (set_line st l) c in
+     match cv with
+     | VBool true =>
+       match after_pass (body s1) with
+       | (Some r, _) => r
+       | (None, Some s2) => while_loop ev body c l j s2
+       | (None, None) => Crash 8
+       end
+     | VBool false => Ok VNull s1
+     | _ => Er (ERun E_EXPRTYPE) s1
+     end).
+Proof. intros H. split; [apply top_line_set_line; exact H|reflexivity]. Qed.
+
+(* the statement executor hands the loop its own line: the line the block driver set before running it *)
+Lemma exec_while_uses_statement_line ev k st c body :
+  exec_stmt ev (S k) st (SWhile c body) = while_loop ev (fun s1 => exec_block ev k s1 body) c (cur_line st) k st.
+Proof. reflexivity. Qed.
